@@ -222,8 +222,8 @@ class Driven(object):
                 if first and data[:4] == contact.MAGIC_HEAD:
                     pkt = contact.Head(data)
                     name = 'CONTACT'
-                    # for the contact header the third field is the CAN_TLS offer on the wire
-                    reason = bool(int(pkt.payload.flags) & 0x01)
+                    # for the contact header the third field is the flags octet on the wire
+                    reason = int(pkt.payload.flags)
                 else:
                     pkt = messages.MessageHead(data)
                     cls = pkt.guess_payload_class(b'')
@@ -240,9 +240,10 @@ class Driven(object):
         return out
 
 
-def peer_contact_header(can_tls):
-    flags = contact.ContactV4.Flag.CAN_TLS if can_tls else 0
-    return bytes(contact.Head() / contact.ContactV4(flags=int(flags)))
+def peer_contact_header(flags):
+    ''' The peer's TCPCLv4 contact header as raw octets: magic, version 4, flags octet (any value,
+    reserved bits included). '''
+    return contact.MAGIC_HEAD + bytes([4, int(flags) & 0xFF])
 
 
 def peer_sess_init(nodeid=NODE_OK):
@@ -281,7 +282,7 @@ def _observe(drv):
         sessinit_clear=any(name == 'SESS_INIT' and chan == 'clear' for (chan, name, _r) in emitted),
         sessinit_tls=any(name == 'SESS_INIT' and chan == 'tls' for (chan, name, _r) in emitted),
         contact_sent=any(name == 'CONTACT' for (_c, name, _r) in emitted),
-        contact_offers_tls=[flag for (_c, name, flag) in emitted if name == 'CONTACT'],
+        contact_flags=[flag for (_c, name, flag) in emitted if name == 'CONTACT'],
         term_reasons=terms,
         clear_after_tls=_clear_after_tls(drv.log),
         params=params,
@@ -306,7 +307,7 @@ def _clear_after_tls(log):
 def run_contact_row(row):
     ''' Contact-header exchange through the real recv_message, then (if the
     connection is still open) the peer's SESS_INIT.
-    row: role ('passive'|'active'), tls_enable, peer_can, require_tls
+    row: role ('passive'|'active'), tls_enable, peer_flags (octet), require_tls
     (None|True|False), hs_ok. '''
     role = 'passive' if row['role'] == 'passive' else 'active-name'
     der = make_cert('v4', ('ip_ok', 'dns_ok', 'uri_ok'))
@@ -314,7 +315,7 @@ def run_contact_row(row):
                  der, hs_ok=row['hs_ok'])
     drv.h.start()
     drv.drain()
-    drv.feed(peer_contact_header(row['peer_can']))
+    drv.feed(peer_contact_header(row['peer_flags']))
     mid = dict(closed=drv.closed(), secure=bool(drv.h.is_secure()), state=str(drv.h.get_session_state()))
     if not drv.closed():
         drv.feed(peer_sess_init())
@@ -339,7 +340,7 @@ def run_authn_row(row, mode='e2e'):
     if mode == 'e2e':
         drv.h.start()
         drv.drain()
-        drv.feed(peer_contact_header(use_tls))
+        drv.feed(peer_contact_header(1 if use_tls else 0))
         if not drv.closed():
             drv.feed(peer_sess_init(nodeid))
         return _observe(drv)
